@@ -121,6 +121,10 @@ def build_call(case):
 
         bys = [da.from_array(b, chunks=tuple(tuple(c) for c in ch)) for b, ch in zip(bys, case["by_chunks"])]
     kw = {"func": case["func"]}
+    if case.get("custom_agg"):
+        from .custom_aggs import make
+
+        kw["func"] = make(case["custom_agg"])
     eg = _expected_arg(case)
     if eg is not None:
         kw["expected_groups"] = eg
@@ -246,6 +250,10 @@ def spec_reduce(func, m, pos, case):
     """SPEC[func] on the 1-D member array m (original order); pos = positions along the reduced axis."""
     fk = case.get("finalize_kwargs") or {}
     ddof = fk.get("ddof", 0)
+    if case.get("custom_agg"):
+        from .custom_aggs import numpy_spec
+
+        return numpy_spec(case["custom_agg"], m)
     with warnings.catch_warnings(), np.errstate(all="ignore"):
         warnings.simplefilter("ignore")
         if func == "count":
@@ -296,6 +304,8 @@ def spec_reduce(func, m, pos, case):
 def expected_dtype(func, in_dtype, dtype=None, fill_value=None):
     """The dtype table of property C11, written from the property text (not from the code)."""
     in_dtype = np.dtype(in_dtype)
+    if func in ("range", "sumcubes", "msq"):
+        return np.dtype("float64")
     if dtype is not None:
         base = np.dtype(dtype)
     elif func in ("count",) + ARG_FUNCS:
@@ -509,6 +519,8 @@ def signature(case):
         "sort": case.get("sort"),
         "has_expected": case.get("expected_groups") is not None,
         "nby": len(case["by"]),
+        "min_count": case.get("min_count"),
+        "fill_given": case.get("fill_value") is not None,
     }
 
 
@@ -614,6 +626,19 @@ def blockwise_precondition(case):
     """Every label (of the flattened broadcast label arrays) lies inside one block of the chunking of the reduced axes."""
     bys = [dec(b) for b in case["by"]]
     if case.get("chunks") is None:
+        return True
+    if len(bys) == 1 and bys[0].ndim == 1 and case.get("by_chunks") is None:
+        # 1-D in-memory labels: flox rechunks automatically (treating missing labels as one more label);
+        # that is exact only for sequential labels (C17), so the precondition is run-contiguity.
+        labs = ["__missing__" if (isinstance(x, float) and x != x) else x for x in bys[0].tolist()]
+        seen = set()
+        prev = object()
+        for x in labs:
+            if x != prev:
+                if x in seen:
+                    return False
+                seen.add(x)
+                prev = x
         return True
     shape = np.broadcast_shapes(*[b.shape for b in bys])
     nd = len(shape)
